@@ -183,4 +183,94 @@ theorem u32le_bytes (n : Nat) (h : n < 4294967296) :
   simp only [toUInt8_toNat', Nat.shiftRight_eq_div_pow, Nat.shiftLeft_eq]
   omega
 
+/-! ## the whole file -/
+
+/-- **the Wuffs std/xz decoder (model) accepts every XZ file of `lib/litonlylzma`**, returns the payload and
+    leaves what follows the file unread: stream header, block header and its CRC-32, LZMA2 payload, block
+    padding, CRC-32 of the data, index (record count, unpadded and uncompressed size matching what the
+    decoder measured, minimal uvarints, padding, CRC-32), footer (CRC-32, backward size, flags, magic). -/
+theorem xz_accepts (src tail : List UInt8) (h : src.length < 2 ^ 60) :
+    WXz.decodeXz ((encodeXz #[] src).toList ++ tail) = Res.ok (pushList #[] src) tail := by
+  have hU : xzUnpadded src < 2 ^ 63 := xzUnpadded_lt src h
+  rw [encodeXz_toList]
+  -- name the pieces, from the back
+  generalize hF : le32 (crc32 (xzTail6 src)) ++ (xzTail6 src ++ [0x59, 0x5A]) ++ tail = F
+  have hFa : (le32 (crc32 (xzTail6 src)) ++ (xzTail6 src ++ [0x59, 0x5A])) ++ tail = F := by
+    exact hF
+  have hsplit : (xzHeader24 ++ (chunksBytes src ++ (0x00 :: (padList ((chunksBytes src).length + 13) ++
+        (le32 (crc32 src) ++ (xzIdxP src ++ (le32 (crc32 (xzIdxP src)) ++
+          (le32 (crc32 (xzTail6 src)) ++ (xzTail6 src ++ [0x59, 0x5A]))))))))) ++ tail
+      = xzHeader24 ++ (chunksBytes src ++ (0x00 :: (padList ((chunksBytes src).length + 13) ++
+        (le32 (crc32 src) ++ (xzIdxP src ++ (le32 (crc32 (xzIdxP src)) ++ F)))))) := by
+    rw [← hFa]; simp only [List.append_assoc, List.cons_append]
+  rw [hsplit]
+  -- the index, spelled out
+  have hI : xzIdxP src = 0x00 :: 0x01 :: (uvList (xzUnpadded src) ++ (uvList src.length ++
+      padList (xzIdx src).length)) := by
+    unfold xzIdxP xzIdx
+    simp only [List.append_assoc, List.cons_append]
+  have hIlen : (xzIdx src).length = 2 + (uvList (xzUnpadded src)).length + (uvList src.length).length := by
+    unfold xzIdx; simp only [List.length_cons, List.length_append]; omega
+  have l1 := uvList_length_pos (xzUnpadded src)
+  have l2 := uvList_length_pos src.length
+  have l3 := uvList_length_le 9 (xzUnpadded src) (by omega) (by simpa using hU)
+  have l4 := uvList_length_le 9 src.length (by omega) (by simp; omega)
+  generalize hR5 : le32 (crc32 (xzIdxP src)) ++ F = R5
+  have hblocks := blocks_ok src (0x01 :: (uvList (xzUnpadded src) ++ (uvList src.length ++
+      (padList (xzIdx src).length ++ R5))))
+  rw [hI]
+  simp only [List.cons_append, List.append_assoc]
+  unfold xzHeader24
+  simp only [List.cons_append, List.nil_append, WXz.decodeXz]
+  have hm : ¬ (([0xFD, 0x37, 0x7A, 0x58, 0x5A, 0x00] : List UInt8) ≠ [0xFD, 0x37, 0x7A, 0x58, 0x5A, 0x00]) := by decide
+  have hf1 : ¬ (([0x00, 0x01, 0x69, 0x22, 0xDE, 0x36] : List UInt8) = [0x00, 0x00, 0xFF, 0x12, 0xD9, 0x41]) := by decide
+  have hf2 : ¬ (([0x00, 0x01, 0x69, 0x22, 0xDE, 0x36] : List UInt8) = [0x00, 0x04, 0xE6, 0xD6, 0xB4, 0x46]) := by decide
+  have hf3 : ¬ (([0x00, 0x01, 0x69, 0x22, 0xDE, 0x36] : List UInt8) = [0x00, 0x0A, 0xE1, 0xFB, 0x0C, 0xA1]) := by decide
+  have hf4 : ¬ (([0x00, 0x01, 0x69, 0x22, 0xDE, 0x36] : List UInt8) ≠ [0x00, 0x01, 0x69, 0x22, 0xDE, 0x36]) := by decide
+  simp only [hm, hf1, hf2, hf3, hf4, if_false]
+  rw [hblocks _ (by simp only [List.length_cons]; omega)]
+  -- the index
+  have huv1 : ∀ T : List UInt8, uvarint (0x01 :: T) = Uv.ok 1 T := by
+    intro T
+    have one : (1 : UInt8).toNat = 1 := rfl
+    simp [uvarint, uvLoop, one]
+  have hrec : indexRecords 1 (uvList (xzUnpadded src) ++ (uvList src.length ++ (padList (xzIdx src).length ++ R5)))
+      {} (#[] ++ pushList #[] src)
+      = .ok (padList (xzIdx src).length ++ R5, ({} : Verif).add (xzUnpadded src) src.length) := by
+    simp only [indexRecords, uvarint_uvList _ hU, uvarint_uvList _ (show src.length < 2 ^ 63 by omega)]
+  have hv : ({} : Verif).add ((chunksBytes src).length + 17) src.length = ({} : Verif).add (xzUnpadded src) src.length := rfl
+  simp only [ne_eq, not_true_eq_false, if_false, huv1, hrec, hv]
+  -- sizes
+  have hbw : (0x00 :: 0x01 :: (uvList (xzUnpadded src) ++ (uvList src.length ++ (padList (xzIdx src).length ++ R5)))).length
+      - (padList (xzIdx src).length ++ R5).length = (xzIdx src).length := by
+    simp only [List.length_cons, List.length_append]; omega
+  rw [hbw]
+  have hpadl : (padList (xzIdx src).length).length = (4 - (xzIdx src).length % 4) % 4 := padList_length _
+  have hzp := zeros_ok ((4 - (xzIdx src).length % 4) % 4) R5 "#bad index" (#[] ++ pushList #[] src)
+  have hpl : padList (xzIdx src).length = List.replicate ((4 - (xzIdx src).length % 4) % 4) 0 := rfl
+  rw [hpl, hzp]
+  have hbs1 : ¬ (((xzIdx src).length + (4 - (xzIdx src).length % 4) % 4) >>> 2 = 0 ∨
+      ((xzIdx src).length + (4 - (xzIdx src).length % 4) % 4) >>> 2 > 0xFFFFFFFF) := by
+    rw [Nat.shiftRight_eq_div_pow]; omega
+  simp only [hbs1, if_false]
+  have htake : List.take (xzIdx src).length (0x00 :: 0x01 :: (uvList (xzUnpadded src) ++ (uvList src.length ++
+      (List.replicate ((4 - (xzIdx src).length % 4) % 4) 0 ++ R5)))) ++ List.replicate ((4 - (xzIdx src).length % 4) % 4) 0
+      = xzIdxP src := by
+    have : (0x00 :: 0x01 :: (uvList (xzUnpadded src) ++ (uvList src.length ++
+        (List.replicate ((4 - (xzIdx src).length % 4) % 4) 0 ++ R5))))
+        = xzIdx src ++ (List.replicate ((4 - (xzIdx src).length % 4) % 4) 0 ++ R5) := by
+      unfold xzIdx; simp only [List.cons_append, List.append_assoc]
+    rw [this, List.take_left]
+    rfl
+  rw [htake, ← hR5, checkU32_ok]
+  -- the footer
+  have hlenP : (xzIdxP src).length = (xzIdx src).length + (4 - (xzIdx src).length % 4) % 4 := by
+    unfold xzIdxP; rw [List.length_append, padList_length]
+  have hbsl : (xzIdxP src).length >>> 2 < 4294967296 := by
+    rw [hlenP, Nat.shiftRight_eq_div_pow]; omega
+  have hu := u32le_bytes ((xzIdxP src).length >>> 2) hbsl
+  rw [← hF]
+  simp only [xzTail6, le32, List.cons_append, List.nil_append, ← hlenP, hu]
+  simp
+
 end WuffsVerif.WXz
